@@ -1,4 +1,5 @@
 import BlochVerif.Sim.Tensor
+import BlochVerif.Eval.MeasureProofs
 /-!
 # C02 — measurement follows the Born rule and collapses to the normalised projection
 
@@ -125,5 +126,57 @@ theorem measure_marks_and_logs (st : State ℂ ℝ) (hw : WF st) (q : ℕ) (r : 
 /-! Non-vacuity: a Bell-pair-capable register exists and is well-formed. -/
 example : WF (allocate complexOps (allocate complexOps (State.init complexOps)).1).1 :=
   WF_allocate _ (WF_allocate _ WF_init)
+
+end BlochVerif.Props.C02
+
+/-! ## evaluator level: the returned bit, the stored value and the reported outcome agree -/
+namespace BlochVerif.Props.C02
+open BlochVerif BlochVerif.Eval BlochVerif.Parse
+
+/-- The bit a measurement returns, the value remembered for the qubit, the outcome a `@tracked` qubit reports and the
+outcome the simulator recorded are one and the same bit. -/
+theorem measured_bit_is_stored_and_reported (q : Nat) (p : P) (st st' : EState) (v : Value)
+    (hq : q < st.lastMeasurement.length)
+    (h : (measureQubit (q : Int) p).run st = .ok (v, st')) :
+    ∃ bit : Int, v = mkBit bit ∧ (bit = 0 ∨ bit = 1) ∧
+      lastOf st'.lastMeasurement q = some bit ∧
+      st'.outcomes.head? = some ('m', q, bit.toNat) ∧
+      trackedOutcome st'.lastMeasurement { type := .Qubit, qubit := q } = some ("qubit ", if bit = 0 then "0" else "1") := by
+  obtain ⟨bit, st0, st1, h1, h2, hv, hst⟩ := measureQubit_decompose (q : Int) p st st' v h
+  have hs0 := ensureQubitActive_state (q : Int) p st st0 h1
+  rw [hs0] at h2
+  obtain ⟨hl, hqb, _, hbit, hout⟩ := simMeasure_spec (q : Int) st st1 bit h2
+  have hlen : (q : Int) ≥ 0 ∧ (q : Int) < (markF (q : Int) st1).lastMeasurement.length := by
+    constructor
+    · exact Int.natCast_nonneg q
+    · have : (markF (q : Int) st1).lastMeasurement = st1.lastMeasurement := by
+        unfold markF; split <;> rfl
+      rw [this, hl]; exact_mod_cast hq
+  have hlm : st'.lastMeasurement = setNth (markF (q : Int) st1).lastMeasurement q bit := by
+    rw [hst]; unfold setLastF
+    simp [hlen.1, hlen.2]
+  have hmo : st'.outcomes = ('m', q, bit.toNat) :: st.outcomes := by
+    rw [hst]
+    have : (setLastF (q : Int) bit (markF (q : Int) st1)).outcomes = st1.outcomes := by
+      unfold setLastF markF; split <;> split <;> rfl
+    rw [this, hout]; simp
+  have hlast : lastOf st'.lastMeasurement q = some bit := by
+    unfold lastOf
+    have hlen' : q < st'.lastMeasurement.length := by
+      rw [hlm]; simp [setNth]
+      have : (markF (q : Int) st1).lastMeasurement = st1.lastMeasurement := by unfold markF; split <;> rfl
+      rw [this, hl]; exact hq
+    have hge : (q : Int) ≥ 0 := Int.natCast_nonneg q
+    have hlt : (q : Int) < st'.lastMeasurement.length := by exact_mod_cast hlen'
+    simp only [hge, hlt, decide_true, Bool.and_self, if_true]
+    have hget : st'.lastMeasurement.getD q (-1) = bit := by
+      rw [hlm]; simp [setNth]
+      have : (markF (q : Int) st1).lastMeasurement = st1.lastMeasurement := by unfold markF; split <;> rfl
+      rw [this, hl]; simp [hq]
+    simp only [Int.toNat_natCast, hget]
+    rcases hbit with h0 | h0 <;> simp [h0]
+  refine ⟨bit, hv, hbit, hlast, by rw [hmo]; rfl, ?_⟩
+  simp only [trackedOutcome, outcomeChar, hlast]
+  rcases hbit with h0 | h0 <;> simp [h0]
 
 end BlochVerif.Props.C02
